@@ -8,9 +8,36 @@ import (
 
 // c12 cases: profiles rich in nested / quantified constraints (deep sub-results, several traces per result)
 // with validations on all three levels; the whole report is handed to the Lean well-formedness checker.
+// large reports: many results in one level (positional ids must stay unique at any size)
+func genC12Large(g *G, size int, id int) C01Case {
+	c := C01Case{Op: "report", Id: id, Stream: "c12-large"}
+	c.Atoms = []Atom{{Kind: "minCount", Path: PP("zz", false), Arg: i64p(1)}, {Kind: "minCount", Path: PP("yy", false), Arg: i64p(1)}}
+	c.Paths = []Path{PP("p0", false)}
+	c.Validations = []Validation{
+		{Name: "big", Class: NS + "T", Rule: Rule{Atom: ip(0)}, Level: []string{"violation", "warning", "info"}[g.n(3)]},
+		{Name: "bignested", Class: NS + "T", Rule: Rule{Nested: &Rule{Atom: ip(1)}, PathIx: ip(0)}, Level: []string{"violation", "warning", "info"}[g.n(3)]},
+	}
+	for k := 0; k < size; k++ {
+		child := nodeId(100000 + k)
+		c.Graph = append(c.Graph, Node{Id: nodeId(k), Types: []string{NS + "T"}, Props: []Prop{{NS + "p0", []Val{VR(child)}}}})
+		c.Graph = append(c.Graph, Node{Id: child, Types: []string{NS + "C"}, Props: []Prop{{NS + "q", []Val{VI(int64(k))}}}})
+	}
+	prof := ProfileSpec{Name: fmt.Sprintf("c12_large_%d", size), Atoms: c.Atoms, Paths: c.Paths, Validations: c.Validations}
+	c.Profile = prof.Render()
+	c.Data = c.Graph.RenderFlat()
+	return c
+}
+
 func genC12(g *G, n int, out io.Writer) {
 	enc := json.NewEncoder(out)
 	maxBranches = 16
+	sizes := []int{9, 10, 11, 33, 65, 101, 130, 257}
+	if n > 500 {
+		sizes = append(sizes, 513, 1025, 2049)
+	}
+	for k, sz := range sizes {
+		enc.Encode(genC12Large(g, sz, 100000+k))
+	}
 	for i := 0; i < n; i++ {
 		c := genC01Graph(g, i, g.coin(0.4))
 		c.Op = "report"
